@@ -90,9 +90,55 @@ func safeGet(h *handler.Handler, f []byte) (m *handler.Message) {
 	return m
 }
 
+// twinBase: station-description frames (1005 / 1006) that differ from a base frame in exactly one field,
+// each placed directly after (and, in the reverse pass, directly before) the base: anything that recognises
+// "the same message as last time" by looking at part of it shows the neighbour's values
+func twinBase(rng *rand.Rand, typ int) [][]byte {
+	type f struct {
+		station, itrf, i1, i2, i3, h uint64
+		x, y, z                      int64
+	}
+	b := f{uint64(rng.Intn(4096)), uint64(rng.Intn(64)), uint64(rng.Intn(16)), uint64(rng.Intn(4)), uint64(rng.Intn(4)), uint64(rng.Intn(65536)),
+		rng.Int63n(1<<38) - 1<<37, rng.Int63n(1<<38) - 1<<37, rng.Int63n(1<<38) - 1<<37}
+	enc := func(v f) []byte {
+		return tr.Frame(build1005(typ, v.station, v.itrf, v.i1, v.x, v.i2, v.y, v.i3, v.z, v.h, nil, typ == 1006))
+	}
+	var out [][]byte
+	variants := []func(v *f){
+		func(v *f) { v.station ^= 1 }, func(v *f) { v.itrf ^= 1 }, func(v *f) { v.i1 ^= 1 }, func(v *f) { v.i1 ^= 8 },
+		func(v *f) { v.x ^= 1 }, func(v *f) { v.x ^= 1 << 20 }, func(v *f) { v.i2 ^= 1 }, func(v *f) { v.y ^= 1 }, func(v *f) { v.y ^= 1 << 30 },
+		func(v *f) { v.i3 ^= 2 }, func(v *f) { v.z ^= 1 }, func(v *f) { v.z ^= 1 << 7 }, func(v *f) { v.z ^= 1 << 8 }, func(v *f) { v.z ^= 1 << 23 },
+		func(v *f) { v.z ^= 1 << 24 }, func(v *f) { v.h ^= 1 }, func(v *f) { v.h ^= 1 << 15 },
+	}
+	for _, mut := range variants {
+		v := b
+		mut(&v)
+		if typ == 1005 && v.h != b.h {
+			continue
+		}
+		out = append(out, enc(b), enc(v))
+	}
+	return out
+}
+
 func c15Pool(rng *rand.Rand, n int) [][]byte {
 	var pool [][]byte
 	add := func(f []byte) { pool = append(pool, f) }
+	for _, typ := range []int{1005, 1006} {
+		tw := twinBase(rng, typ)
+		if !tr.Thorough() {
+			// a seeded third of the variants in the quick tier, always including the last bytes of the message
+			var sel [][]byte
+			for i := 0; i+1 < len(tw); i += 2 {
+				if (i/2+int(tr.Seed()))%3 == 0 || i/2 >= len(tw)/2-4 {
+					sel = append(sel, tw[i], tw[i+1])
+				}
+			}
+			tw = sel
+		}
+		pool = append(pool, tw...)
+	}
+	n += len(pool)
 	for i := 0; len(pool) < n; i++ {
 		switch i % 9 {
 		case 0:
